@@ -131,7 +131,14 @@ def witness_of(e, detail):
 
 
 def judge(ctx, binary, cases, events, tag, seen):
-    rej = judge_cases_detail(ctx, SPEC, "ObfTrace", events, tag)
+    drift = set()
+    rej = judge_cases_detail(ctx, SPEC, "ObfTrace", events, tag, drift=drift)
+    drift -= set(rej)
+    if drift:      # permitted by ObfP but not what the implementation-shaped model computes
+        ctx.cov["model_drift"] = True
+        e = events[min(drift)]
+        ctx.notes.append("MODEL-DRIFT (%s): %d real outputs permitted by ObfP differ from ObfI, e.g. %s" % (
+            tag, len(drift), json.dumps({k: e[k] for k in ("entry", "excl_strings", "in", "out")})[:500]))
     ctx.cov["evaluations"] += len(events)
     ctx.cov["traces_validated_against_impl"] += len(events) - len(rej)
     for e in events:
@@ -263,6 +270,10 @@ def run(ctx):
     if rj != list(range(len(bad))):
         raise Broken("binding self-test: corrupted events accepted by the spec: %s" % [bad[i][0] for i in range(len(bad)) if i not in rj])
     ctx.notes.append("self-test: corrupted events rejected: %s" % ", ".join(n for n, _ in bad))
+
+
+    if ctx.cov["model_drift"]:        # DESIGN.md 2.5: the exhaustive result is then not counted as covering the code
+        ctx.cov["states"] = ctx.cov["transitions"] = 0
 
 
 def replay(ctx, path):
